@@ -1,6 +1,7 @@
 import YaegiVerif.Common.Sexp
 import YaegiVerif.Model.Restricted
 import YaegiVerif.Model.Env
+import YaegiVerif.Model.C13Options
 import YaegiVerif.Spec.OsEnv
 import YaegiVerif.Generated.C13
 /- Line-protocol front end for C13 (glue, not a proof obligation). Strings are byte strings: one Char per byte.
@@ -15,7 +16,12 @@ import YaegiVerif.Generated.C13
    virt CFG                                → (virt "Setenv" …)
    used (path base alt)…                   → (used ("name" "path") …)
    env CFG (entry…) ((k v)…) OP…           → (y OUT…) (yv (k v)…) (yh (k v)…) (g OUT…) (gm (k v)…)
-     OP = (set k v) (unset k) (clear) (get k) (lookup k) (environ) (expand s) -/
+     OP = (set k v) (unset k) (clear) (get k) (lookup k) (environ) (expand s)
+   opts special unrestricted ARGS ENV stdin stdout stderr TAGS fs gopath
+     ARGS, ENV, TAGS = (n) for a nil slice | (s "a" …) for a non-nil one; stdin/stdout/stderr = nil|file|other
+                                           → (args opt "a" …|host|unknown) (fparse …) (clname …) (environ virt (k v)…|host|unknown)
+                                             (println D) (logprint D) (builtin D) (scan D) (osstdout D) (osstderr D) (osstdin D) (clout D)
+                                             (tags given "a" …|dflt "what"|unknown) (gopath …) (fs …) (unrestricted 0|1|unknown) -/
 namespace YaegiVerif.Driver.C13
 open YaegiVerif YaegiVerif.Restricted YaegiVerif.Spec.OsEnv
 
@@ -111,8 +117,64 @@ def opKeys : Op → List String
 
 def virtFns (c : Cfg) : List String := envFns.filter (envVirtual F c)
 
+def parseSlice (s : Sexp) : Option (Option (List String)) :=
+  match s with
+  | .list [.atom "n"] => some none
+  | .list (.atom "s" :: xs) => (xs.mapM Sexp.atom?).map some
+  | _ => none
+
+def parseStreamArg (s : Sexp) : Option (Option StreamArg) :=
+  match s with
+  | .atom "nil" => some none
+  | .atom "file" => some (some .file)
+  | .atom "other" => some (some .other)
+  | _ => none
+
+def showArgsSrc : ArgsSrc → String
+  | .opt a => "opt" ++ String.join (a.map fun x => " " ++ qb x)
+  | .host => "host"
+  | .unknown => "unknown"
+
+def showDest : Dest → String
+  | .opt => "opt" | .host => "host" | .unknown => "unknown"
+
+def showResolved {α : Type} (f : α → String) : Resolved α → String
+  | .given a => "given" ++ f a
+  | .dflt d => "dflt " ++ qb d
+  | .unknown => "unknown"
+
+def handleOpts (o : Options) (h : Host) : String :=
+  let d := fun (k : String) (x : Dest) => "(" ++ k ++ " " ++ showDest x ++ ")"
+  " ".intercalate
+    ["(args " ++ showArgsSrc (scriptArgsSrc F o h) ++ ")",
+     "(fparse " ++ showArgsSrc (flagParseSrc F o h) ++ ")",
+     "(clname " ++ showArgsSrc (cmdLineNameSrc F o h) ++ ")",
+     "(environ " ++ (match scriptEnviron F o h with
+        | .virt e => "virt " ++ showPairs e
+        | .host => "host"
+        | .unknown => "unknown") ++ ")",
+     d "println" (ioDest F o h "fmt" "Println"),
+     d "logprint" (ioDest F o h "log" "Print"),
+     d "builtin" (builtinDest F o "_println"),
+     d "scan" (ioDest F o h "fmt" "Scan"),
+     d "osstdout" (ioDest F o h "os" "Stdout"),
+     d "osstderr" (ioDest F o h "os" "Stderr"),
+     d "osstdin" (ioDest F o h "os" "Stdin"),
+     d "clout" (ioDest F o h "flag" "CommandLine"),
+     "(tags " ++ showResolved (fun (a : List String) => String.join (a.map fun x => " " ++ qb x)) (slotSlice F "BuildTags" o.buildTags) ++ ")",
+     "(gopath " ++ showResolved (fun (a : String) => " " ++ qb a) (slotString F "GOPATH" o.goPath) ++ ")",
+     "(fs " ++ showResolved (fun (_ : Option Unit) => "") (slotIface F "filesystem" (if o.fs then some () else none)) ++ ")",
+     "(unrestricted " ++ (match effUnrestricted F o with | some true => "1" | some false => "0" | none => "unknown") ++ ")"]
+
 def handle (args : List Sexp) : String :=
   match args with
+  | [.atom "opts", special, unres, a, e, si, so, se, tags, fs, .atom gp] =>
+    (match special.bool?, unres.bool?, parseSlice a, parseSlice e, parseStreamArg si, parseStreamArg so, parseStreamArg se,
+           parseSlice tags, fs.bool? with
+     | some sp, some u, some a, some e, some si, some so, some se, some tags, some fs =>
+       handleOpts { args := a, env := e, stdin := si, stdout := so, stderr := se, goPath := gp, buildTags := tags, fs := fs, unrestricted := u }
+         { specialStdio := sp }
+     | _, _, _, _, _, _, _, _, _ => "bad-op")
   | .atom "keys" :: sets =>
     (match sets.mapM Sexp.atom? with
      | some ss => "(keys " ++ " ".intercalate ((binPkgOf (keysWith ss)).map qb) ++ ")"
